@@ -281,7 +281,8 @@ def r19_4(ctx: Ctx) -> None:
         ctx.check(ok, "R19.4", f, f.node, f"{name} calls {api} on a read-mode archive", f"{name} does not call the library's {api}() on a read-mode archive", construct=f"{name} -> {api}")
     for name in ("run_create", "run_append"):
         f = _cli(ctx, name)
-        ok = any(attr_tail(x) == "writeall" for x in q.calls(f)) and any(attr_tail(x) == "write" for x in q.calls(f))
+        tails = {attr_tail(n) for g, n, via in q.deep_nodes(ctx, f, depth=2) if isinstance(n, ast.Call)}
+        ok = "writeall" in tails and "write" in tails
         ctx.check(ok, "R19.4", f, f.node, f"{name} archives directories with writeall and files with write", f"{name} does not call writeall/write", construct=f"{name} -> writeall/write")
 
 
